@@ -38,8 +38,8 @@ let dump_entries (l : M.emode_entry list) : string =
 let dump_emode (e : M.emode_settings) : string =
   String.concat " " [zs e.M.es_tag; zs e.M.es_timestamp; zs e.M.es_flags; dump_entries e.M.es_entries]
 
-let dump_bank (b : M.bank) : string =
-  String.concat " " [dump_cfg b.M.b_cfg; zs b.M.b_flags; dump_emode b.M.b_emode]
+let dump_bank (b : M.cbank) : string =
+  String.concat " " [dump_cfg b.M.cb_cfg; zs b.M.cb_flags; dump_emode b.M.cb_emode]
 
 let opt (t : toks) (f : toks -> 'a) : 'a option =
   match next t with "N" -> None | "S" -> Some (f t) | x -> failwith ("bad option token " ^ x)
@@ -96,12 +96,12 @@ let suite_config (line : string) : string =
   | "B2U" -> res_s zs (M.basis_to_u32 (nz t))
   | "CONF" ->
       let c = parse_cfg t in let fl = nz t in let o = parse_opt t in
-      res_s (fun b -> "OK " ^ dump_cfg b.M.b_cfg ^ " " ^ zs b.M.b_flags)
-        (M.bank_configure { M.b_cfg = c; b_flags = fl; b_emode = M.es_zeroed } o)
+      res_s (fun b -> "OK " ^ dump_cfg b.M.cb_cfg ^ " " ^ zs b.M.cb_flags)
+        (M.bank_configure { M.cb_cfg = c; cb_flags = fl; cb_emode = M.es_zeroed } o)
   | "UNF" ->
       let c = parse_cfg t in let fl = nz t in let o = parse_opt t in
-      let b = M.bank_configure_unfrozen { M.b_cfg = c; b_flags = fl; b_emode = M.es_zeroed } o in
-      "OK " ^ dump_cfg b.M.b_cfg ^ " " ^ zs b.M.b_flags
+      let b = M.bank_configure_unfrozen { M.cb_cfg = c; cb_flags = fl; cb_emode = M.es_zeroed } o in
+      "OK " ^ dump_cfg b.M.cb_cfg ^ " " ^ zs b.M.cb_flags
   | "REC" ->
       let k = ni t in
       let cfgs = List.init k (fun _ -> parse_entries t) in
@@ -140,12 +140,12 @@ let suite_cfgsim (line : string) : string =
   let n = ni t in
   let staked_tag = zi 2 in
   let cfg2 = { cfg2 with M.bc_oracle_key = zi 1; bc_asset_tag = staked_tag } in
-  let banks : M.bank option array = [| None; None; Some { M.b_cfg = cfg2; b_flags = flags2; b_emode = M.es_zeroed } |] in
+  let banks : M.cbank option array = [| None; None; Some { M.cb_cfg = cfg2; cb_flags = flags2; cb_emode = M.es_zeroed } |] in
   let caps = ref (match M.ix_group_set_caps None None with M.Ok c -> c | M.Err _ -> failwith "default caps") in
   let settings : M.staked_settings option ref = ref None in
   let caps_s () = "G " ^ zs !caps.M.cap_init ^ " " ^ zs !caps.M.cap_maint in
   let dump i = match banks.(i) with Some b -> "B" ^ string_of_int i ^ " " ^ dump_bank b | None -> failwith "no bank" in
-  let on_bank i (f : M.bank -> M.bank M.res) : string =
+  let on_bank i (f : M.cbank -> M.cbank M.res) : string =
     match banks.(i) with
     | None -> "ABSENT"
     | Some b -> (match f b with M.Ok b' -> banks.(i) <- Some b'; "OK " ^ dump i | M.Err e -> err_s e) in
@@ -199,7 +199,31 @@ let suite_cfgsim (line : string) : string =
           (* external event: the bankruptcy handler (not a configuration request) moves the bank to
              KilledByBankruptcy; the fixture that prepares the debt also installs a Fixed oracle (key 0) *)
           let i = ni t in
-          on_bank i (fun b -> M.Ok { b with M.b_cfg = { b.M.b_cfg with M.bc_op_state = M.oP_KILLED; bc_oracle_key = zi 0 } })
+          on_bank i (fun b -> M.Ok { b with M.cb_cfg = { b.M.cb_cfg with M.bc_op_state = M.oP_KILLED; bc_oracle_key = zi 0 } })
+      | "MIG" -> let i = ni t in on_bank i (fun b -> M.ix_migrate_curve b)
+      | "HP" ->
+          let k = ni t in
+          let raw = List.init k (fun _ -> let i = ni t in let liab = nb t in let sh = nz t in let pr = nz t in (i, liab, sh, pr)) in
+          if List.exists (fun (i, _, _, _) -> banks.(i) = None) raw then "ABSENT"
+          else begin
+            (* the probe's fixture: unit share values (amount = shares), the probed balance is the bank's
+               only deposit, mint decimals 6 *)
+            let ps = List.map (fun (i, liab, sh, pr) ->
+              match banks.(i) with
+              | Some b -> M.probe_position liab sh pr (zi 6) b (if liab then zi 0 else sh)
+              | None -> failwith "absent") raw in
+            if List.exists (function M.Err _ -> true | M.Ok _ -> false) ps then "PROBE-ERR"
+            else begin
+              let l = List.map (function M.Ok p -> p | M.Err _ -> failwith "unreachable") ps in
+              let hi = M.account_health M.RInitial l in
+              let hm = M.account_health M.RMaint l in
+              match hi, hm with
+              | M.Err M.EPanic, _ | _, M.Err M.EPanic -> "PANIC"
+              | _ ->
+                  let pr = function M.Ok (a, b) -> zs a ^ " " ^ zs b | M.Err _ -> "0 0" in
+                  "H " ^ pr hi ^ " " ^ pr hm
+            end
+          end
       | x -> failwith ("unknown step " ^ x) in
     out := s :: !out
   done;
